@@ -910,6 +910,13 @@ inductive Cons where
   | peekOps (ops : List PeekOp)    -- `.peekable()` on the pipeline, then next/next_back/peek/peek_back
   /-- `pre` calls, then `c = koto.copy it`, then interleaved calls `(onCopy, isNext)` on copy / original -/
   | copyOps (pre : List Bool) (post : List (Bool × Bool))
+  /-- Consuming the iterable *value* itself through one entry path (a `for` loop, multi-assignment
+  unpacking, or a library function applied to the value): `pre` × `iterator.next(value)` first, then
+  the consumption (`mode` 0: everything, 1: at most two elements, 2: exactly three pulls — unpacking),
+  then one more `iterator.next(value)` to observe where the value stands. `persistent`: the value is an
+  iterator (KIterator, object with `@next`), so every entry continues where the last one stopped;
+  otherwise (containers, ranges, strings, objects with only `@iterator`) every entry starts afresh. -/
+  | entry (persistent : Bool) (pre : Nat) (mode : Nat)
   /-- the same on `it = pipeline.peekable()` with the `Peekable` operations -/
   | peekCopy (pre : List PeekOp) (post : List (Bool × PeekOp))
   deriving Repr, Inhabited
@@ -1110,6 +1117,33 @@ def runCons (fuel : Nat) (it : It) : Cons → Ans × List Ev
     let (r, it', e) := advanceIt n it
     let (a, _, e') := drain fuel it'
     (a.map (fun l => Val.tuple [Val.int r, l]), e ++ e')
+  | .entry persistent pre mode =>
+    let nullEnd := fun (vs : List Val) => vs.map (fun v => if Val.same v endMarker then Val.null else v)
+    let consume := fun (j : It) =>
+      match mode with
+      | 0 => let (a, j', e) := drain fuel j
+             ((match a with | .ok (.list l) => l | _ => []), j', e)
+      | 1 => let (vs, j', e) := runCalls [true, true] j
+             -- a loop that stops after two elements, or at the end: a second pull only after a value
+             match vs with
+             | v :: _ => if Val.same v endMarker then
+                           let (o, j1, e1) := j.next
+                           let _ := o
+                           ([], j1, e1)
+                         else (vs.filter (fun x => !Val.same x endMarker), j', e)
+             | [] => ([], j', e)
+      | _ => let (vs, j', e) := runCalls [true, true, true] j
+             (nullEnd vs, j', e)
+    if persistent then
+      let (ps, it1, e1) := runCalls (List.replicate pre true) it
+      let (r, it2, e2) := consume it1
+      let (a, _, e3) := it2.next
+      (.ok (.tuple [.list ps, .list r, a.getD endMarker]), e1 ++ e2 ++ e3)
+    else
+      let (o, _, e0) := it.next
+      let (r, _, e2) := consume it
+      (.ok (.tuple [.list (List.replicate pre (o.getD endMarker)), .list r, o.getD endMarker]),
+        (List.replicate pre e0).flatten ++ e2 ++ e0)
   | .copyOps pre post =>
     let (vs, it', e) := runCalls pre it
     let (xs, ys, e') := runCopyOps post it' it'
@@ -1315,6 +1349,16 @@ def specCons (bidir : Bool) (c : Cons) (xs : List Val) : Ans :=
     let rest := specPeekAfter bidir pre xs
     .ok (.tuple [.list (specPeek bidir pre xs), .list (specPeek bidir onC rest), .list (specPeek bidir onO rest)])
   | .peekOps ops => .ok (.list (specPeek bidir ops xs))
+  | .entry persistent pre mode =>
+    let start := if persistent then xs.drop pre else xs
+    let pres := if persistent then specCalls false (List.replicate pre true) xs
+                else List.replicate pre (xs.head?.getD endMarker)
+    let (r, used) := match mode with
+      | 0 => (start, start.length)
+      | 1 => (start.take 2, 2)
+      | _ => (start.take 3 ++ List.replicate (3 - start.length) Val.null, 3)
+    let after := if persistent then (start.drop used).head?.getD endMarker else xs.head?.getD endMarker
+    .ok (.tuple [.list pres, .list r, after])
   | .calls dirs => .ok (.list (specCalls bidir dirs xs))
   | .advance n => .ok (.tuple [Val.int (n - xs.length : Nat), .list (xs.drop n)])
   | .unpack => .ok (.tuple ((xs.take 3) ++ List.replicate (3 - xs.length) Val.null))
